@@ -24,7 +24,7 @@ TraceInit == l = 1 /\ InitWith(1)
 
 TReset(e) ==
   /\ e.shards >= 1 /\ e.numbs = e.shards      \* the configured shard count is the one in use
-  /\ n' = e.shards /\ obs' = {} /\ kidx' = <<>>
+  /\ n' = e.shards /\ obs' = <<>> /\ kidx' = <<>>
   /\ m' = <<>> /\ sh' = <<>> /\ rt' = <<>>
   /\ last' = [op |-> "init", n |-> e.shards]
 
